@@ -34,4 +34,9 @@ def run(ctx):
     # the pruning guard (is_old) being exactly the window
     import windowrules as W2
     W2.clause_history_window(R, F)
+    # what is in memory is at least as new as what a commit persisted: a later operation (a reorg, a write) works on the
+    # in-memory history of a key when there is one - a persisted history is loaded only for an absent key, and a table rollback
+    # visits cached and persisted keys through that loader
+    T.clause_retrieve_cache(R, F)
+    W2.clause_table_reorg_visits_all(R, F)
     return R
